@@ -306,7 +306,11 @@ func History(rng *rand.Rand, n int, ips []string, wildPct, rawPct int) []string 
 				if rng.Intn(100) < wildPct {
 					wild = 1 + rng.Intn(2)
 				}
-				payload = RandomReport(rng, id, hp, lp, wild).Payload(rng)
+				r := RandomReport(rng, id, hp, lp, wild)
+				if rng.Intn(2) == 0 { // the reported local address is some participant's IP: it must never become the key
+					r.Over["localip0"] = []byte(ips[rng.Intn(len(ips))])
+				}
+				payload = r.Payload(rng)
 			case k < 13:
 				payload = Keepalive(id)
 			case k < 17: // removal
